@@ -13,7 +13,7 @@ from ..universe import make_event
 
 ID = "C13"
 LEVEL = "model_checking"
-ASSUMPTIONS = ["see C09; filter validity is decided by the relay's own NostrQuery validator (C13 is about the protocol, not about which filters are valid)"]
+ASSUMPTIONS = ["real nostr_relay code imported from /repo's working tree, driven through web.start_client / the storage API; SQLite runs for real behind a same-thread connection shim (bound to real aiosqlite by C06's conformance cases); LMDB is an in-memory double (bound to the real liblmdb by C10's conformance cases), msgpack is pip's pure-python codec; asyncio runs on a controlled virtual-time loop; filter validity is decided by the relay's own NostrQuery validator (C13 is about the protocol, not about which filters are valid)"]
 CHUNK = 1
 LIMIT = 2
 
